@@ -93,6 +93,71 @@ theorem servicesched_guards_pinned : Irismod.Gen.PureServiceSched.guards =
      "Keeper.CheckAuthority: checkModule && len(requestContext.ModuleName) > 0",
      "Keeper.validateServiceFeeCap: len(serviceFeeCap) != 1 || serviceFeeCap[0].Denom != baseDenom"] := rfl
 
+/-- every statement of these functions executed for its effect — a call whose result is dropped (store and bank
+writes, queue moves, hooks) or a write to a record field — with its nesting depth, in source order: a write that is
+dropped, duplicated, reordered or moved into or out of a branch breaks this -/
+theorem servicesched_effects_pinned : Irismod.Gen.PureServiceSched.effects =
+    ["EndBlocker: d1 k.DeleteActiveRequest( ctx, request.ServiceName, provider, request.ExpirationHeight, requestID, )",
+     "EndBlocker: d2 k.IterateActiveRequests( ctx, requestContextID, requestContext.BatchCounter, expiredRequestHandler, )",
+     "EndBlocker: d1 k.DeleteRequestBatchExpiration(ctx, requestContextID, ctx.BlockHeight())",
+     "EndBlocker: d1 k.SetRequestContext(ctx, requestContextID, requestContext)",
+     "EndBlocker: d2 k.CompleteServiceContext(ctx, requestContext, requestContextID)",
+     "EndBlocker: d3 k.AddNewRequestBatch( ctx, requestContextID, ctx.BlockHeight()-requestContext.Timeout+int64( requestContext.RepeatedFrequency, ), )",
+     "EndBlocker: d3 k.CompleteServiceContext(ctx, requestContext, requestContextID)",
+     "EndBlocker: d1 k.CleanBatch(ctx, requestContext, requestContextID)",
+     "EndBlocker: d3 k.OnRequestContextPaused(ctx, requestContext, requestContextID, \"no exchange rate\")",
+     "EndBlocker: d3 k.DeleteNewRequestBatch(ctx, requestContextID, ctx.BlockHeight())",
+     "EndBlocker: d4 k.OnRequestContextPaused( ctx, requestContext, requestContextID, \"insufficient balances\", )",
+     "EndBlocker: d4 writeCache()",
+     "EndBlocker: d4 k.AddRequestBatchExpiration( ctx, requestContextID, ctx.BlockHeight()+requestContext.Timeout, )",
+     "EndBlocker: d3 k.SkipCurrentRequestBatch(ctx, requestContextID, *requestContext)",
+     "EndBlocker: d1 k.DeleteNewRequestBatch(ctx, requestContextID, ctx.BlockHeight())",
+     "EndBlocker: d0 k.IterateExpiredRequestBatch(ctx, ctx.BlockHeight(), expiredRequestBatchHandler)",
+     "EndBlocker: d0 k.IterateNewRequestBatch(ctx, ctx.BlockHeight(), newRequestBatchHandler)",
+     "UpdateRequestContext: d2 requestContext.ResponseThreshold = respThreshold",
+     "UpdateRequestContext: d1 requestContext.ServiceFeeCap = serviceFeeCap",
+     "UpdateRequestContext: d1 requestContext.Providers = pds",
+     "UpdateRequestContext: d1 requestContext.Timeout = timeout",
+     "UpdateRequestContext: d1 requestContext.RepeatedFrequency = repeatedFreq",
+     "UpdateRequestContext: d1 requestContext.RepeatedTotal = repeatedTotal",
+     "UpdateRequestContext: d0 k.SetRequestContext(ctx, requestContextID, requestContext)",
+     "StartRequestContext: d0 requestContext.State = types.RUNNING",
+     "StartRequestContext: d0 k.SetRequestContext(ctx, requestContextID, requestContext)",
+     "StartRequestContext: d1 k.AddNewRequestBatch(ctx, requestContextID, ctx.BlockHeight())",
+     "Keeper.InitiateRequests: d0 requestContext.BatchCounter++",
+     "Keeper.InitiateRequests: d1 k.SetCompactRequest(ctx, requestID, request)",
+     "Keeper.InitiateRequests: d1 k.AddActiveRequest( ctx, requestContext.ServiceName, provider, ctx.BlockHeight()+requestContext.Timeout, requestID, )",
+     "Keeper.InitiateRequests: d0 requestContext.BatchState = types.BATCHRUNNING",
+     "Keeper.InitiateRequests: d0 requestContext.BatchResponseCount = 0",
+     "Keeper.InitiateRequests: d0 requestContext.BatchRequestCount = uint32(len(providers))",
+     "Keeper.InitiateRequests: d0 requestContext.BatchResponseThreshold = requestContext.ResponseThreshold",
+     "Keeper.InitiateRequests: d0 k.SetRequestContext(ctx, requestContextID, requestContext)",
+     "Keeper.SkipCurrentRequestBatch: d0 requestContext.BatchCounter++",
+     "Keeper.SkipCurrentRequestBatch: d0 requestContext.BatchState = types.BATCHRUNNING",
+     "Keeper.SkipCurrentRequestBatch: d0 requestContext.BatchRequestCount = 0",
+     "Keeper.SkipCurrentRequestBatch: d0 requestContext.BatchResponseCount = 0",
+     "Keeper.SkipCurrentRequestBatch: d0 requestContext.BatchResponseThreshold = requestContext.ResponseThreshold",
+     "Keeper.SkipCurrentRequestBatch: d0 k.SetRequestContext(ctx, requestContextID, requestContext)",
+     "Keeper.SkipCurrentRequestBatch: d0 k.AddRequestBatchExpiration(ctx, requestContextID, ctx.BlockHeight()+requestContext.Timeout)",
+     "Keeper.CreateRequestContext: d0 k.SetRequestContext(ctx, requestContextID, requestContext)",
+     "Keeper.CreateRequestContext: d1 k.AddNewRequestBatch(ctx, requestContextID, ctx.BlockHeight())",
+     "Keeper.PauseRequestContext: d0 requestContext.State = types.PAUSED",
+     "Keeper.PauseRequestContext: d0 k.SetRequestContext(ctx, requestContextID, requestContext)",
+     "Keeper.KillRequestContext: d0 requestContext.State = types.COMPLETED",
+     "Keeper.KillRequestContext: d0 k.SetRequestContext(ctx, requestContextID, requestContext)",
+     "Keeper.AddResponse: d0 k.SetResponse(ctx, requestID, response)",
+     "Keeper.AddResponse: d0 k.DeleteActiveRequest(ctx, request.ServiceName, provider, request.ExpirationHeight, requestID)",
+     "Keeper.AddResponse: d0 k.IncreaseRequestVolume(ctx, consumer, request.ServiceName, provider)",
+     "Keeper.AddResponse: d0 requestContext.BatchResponseCount++",
+     "Keeper.AddResponse: d0 k.SetRequestContext(ctx, requestContextID, requestContext)",
+     "Keeper.CompleteBatch: d0 requestContext.BatchState = types.BATCHCOMPLETED",
+     "Keeper.CompleteBatch: d1 k.Callback(ctx, requestContextID)",
+     "Keeper.CompleteServiceContext: d0 k.DeleteRequestContext(ctx, requestContextID)",
+     "Keeper.OnRequestContextPaused: d0 requestContext.BatchState = types.BATCHCOMPLETED",
+     "Keeper.OnRequestContextPaused: d0 requestContext.State = types.PAUSED",
+     "Keeper.OnRequestContextPaused: d0 k.SetRequestContext(ctx, requestContextID, *requestContext)",
+     "Keeper.OnRequestContextPaused: d1 stateCallback(ctx, requestContextID, cause)"] := rfl
+
 private theorem wrap_id (x : Int) (h : -9223372036854775808 ≤ x ∧ x < 9223372036854775808) : I64_wrap x = x := by
   unfold I64_wrap
   have e : (x + 9223372036854775808).emod 18446744073709551616 = x + 9223372036854775808 :=
